@@ -113,6 +113,30 @@ def wellFormed : Nat → List Ev → Bool
   | n, .query q :: r => wellFormed (if denied q then n else n + 1) r
   | n, .dbDone :: r => n > 0 && wellFormed (n - 1) r
 
+/-- "the statement is remembered only after the censor": in the ordered call list of the `SimpleQueryPacket` case no
+`Add` comes before `handleQueryPacket` (and both occur). -/
+def addAfterCensor (calls : List String) : Bool :=
+  (calls.takeWhile (· != "handleQueryPacket")).all (· != "Add") && calls.contains "handleQueryPacket" && calls.contains "Add"
+
+/-! ### MySQL (`response_proxy.go`, cases CommandQuery / CommandStatementPrepare)
+
+No queue: a denied statement gets one ERR packet and the loop continues before a response handler is installed and
+before the packet is written to the database; an allowed one is written to the database. -/
+
+def myStep (q : String) : List Obs :=
+  if denied q then [.clientError] else [.forwardDb q]
+
+def myRun : List String → List Obs
+  | [] => []
+  | q :: qs => myStep denied q ++ myRun qs
+
+theorem forwarded_myRun (qs : List String) : forwarded (myRun denied qs) = qs.filter (fun q => !denied q) := by
+  induction qs with
+  | nil => rfl
+  | cons q qs ih =>
+    simp only [myRun, myStep]
+    cases hd : denied q <;> simp [forwarded, ih, hd]
+
 /-! ## lemmas -/
 
 @[simp] theorem forwarded_append (a b : List Obs) : forwarded (a ++ b) = forwarded a ++ forwarded b := by
